@@ -16,6 +16,7 @@ import types
 import numpy as np
 
 from sim import datagen
+from sim import env as _env
 from sim.canon import EventLog, canon, field_hashes, h_array, h_obj
 from sim.seams import FaultPlan, GlobalStateGuard, NumProxy, SimCrash, SimFS, SimOS, exc_for_site
 
@@ -233,6 +234,7 @@ def gen_world(rng):
                     a["params"]["method"] = "no_such_method"
             algs.append(a)
     w["algs"] = algs
+    w["log_debug"] = rng.random() < 0.1  # the package logger at DEBUG level: must not change anything
     return w
 
 
@@ -1724,6 +1726,7 @@ def run_case(seed, tier="quick", case=None, known=()):
         nops = len(ops_in)
         epilogue = case.get("extra", {}).get("epilogue", True)
     log = EventLog(seed)
+    _env.set_log_debug(bool(w.get("log_debug")))
     log.add({"world": w})
     res = {"property": PROPERTY, "seed": seed, "world": w, "ops": [], "violations": [], "known": [],
            "counters": {}, "states": [], "sig": [], "sets": {}, "extra": {"epilogue": epilogue}}
